@@ -226,24 +226,45 @@ func VerifFragments(input string, failFast bool) (frags []VerifFrag, diags []Ver
 	return frags, verifDiags(ww.errors), true, werr
 }
 
+// verifBody dumps a statement list with an explicit stack (no recursion), so that
+// trees of any block nesting depth can be dumped: a frame is one Body being copied;
+// when it is finished its dump becomes the Body of the block that opened it.
 func verifBody(b Body) []VerifFrag {
-	out := make([]VerifFrag, 0, len(b.Statements))
-	for _, st := range b.Statements {
+	type frame struct {
+		stmts []Statement
+		idx   int
+		out   []VerifFrag
+		block VerifFrag // the dumped header of the block this body belongs to (unused for the root)
+	}
+	stack := []*frame{{stmts: b.Statements, out: make([]VerifFrag, 0, len(b.Statements))}}
+	for {
+		top := stack[len(stack)-1]
+		if top.idx == len(top.stmts) {
+			if len(stack) == 1 {
+				return top.out
+			}
+			stack = stack[:len(stack)-1]
+			parent := stack[len(stack)-1]
+			f := top.block
+			f.Body = top.out
+			parent.out = append(parent.out, f)
+			continue
+		}
+		st := top.stmts[top.idx]
+		top.idx++
 		switch s := st.(type) {
 		case *Block:
 			f := verifHeader(s.BlockHeader)
 			f.Kind = "block"
-			f.Body = verifBody(s.Body)
-			out = append(out, f)
+			stack = append(stack, &frame{stmts: s.Body.Statements, out: make([]VerifFrag, 0, len(s.Body.Statements)), block: f})
 		case *Assignment:
-			out = append(out, verifAssignment(*s))
+			top.out = append(top.out, verifAssignment(*s))
 		case *Description:
-			out = append(out, verifDescription(*s))
+			top.out = append(top.out, verifDescription(*s))
 		default:
-			out = append(out, VerifFrag{Kind: "unknown"})
+			top.out = append(top.out, VerifFrag{Kind: "unknown"})
 		}
 	}
-	return out
 }
 
 // VerifTree dumps a syntax tree returned by ParseFile (nil-safe).
